@@ -224,3 +224,92 @@ def run_c01(c):
         routes.append(("nonumpy:" if nonp else "") + "dtw.distance[psi-int]")
         obs.append(enc_guarded(c, lambda: dtw.distance(a, b, **settings(c, psi_int=True))))
     return {"id": c["id"], "routes": routes, "obs": obs}
+
+
+# ---------------------------------------------------------------------------------------------
+# C02: every route into the C engine (and the Python engine as the reference)
+def _native_dist(c, fn_name=None):
+    from . import native
+    lib = native.lib("plain")
+    nd = ndim_of(c)
+    a = native.flat_series(c, "s1")
+    b = native.flat_series(c, "s2")
+    A = native.Buf(len(a), fill=a)
+    B = native.Buf(len(b), fill=b)
+    st = lib.settings(c)
+    try:
+        if nd == 1 and not c.get("use_ndim"):
+            d = lib.L.dtw_distance(A.ptr, len(c["s1"]), B.ptr, len(c["s2"]), st)
+        else:
+            d = lib.L.dtw_distance_ndim(A.ptr, len(c["s1"]), B.ptr, len(c["s2"]), nd, st)
+        A.check("s1")
+        B.check("s2")
+        if A.tolist() != a or B.tolist() != b:
+            return float("nan")
+        return d
+    finally:
+        A.free()
+        B.free()
+
+
+def run_c02(c):
+    from dtaidistance import dtw, dtw_cc, dtw_ndim
+    nd = ndim_of(c)
+    use_ndim = nd > 1 or c.get("use_ndim", False)
+    routes, obs = [], []
+
+    raws = []
+
+    def add(name, fn):
+        routes.append(name)
+        r = guarded(fn)
+        if isinstance(r, tuple) and len(r) == 2 and r[0] == "raised":
+            obs.append(RAISED)
+            raws.append(None)
+            return
+        k = enc_cost(c, r)
+        if k == OFF_LATTICE and raws and obs[0] == OFF_LATTICE and raws[0] is not None:
+            # not an exact-domain value: agreement with the reference is decided on the floats
+            try:
+                a, b = float(r), float(raws[0])
+                same = (a == b) or abs(a - b) <= 4 * max(math.ulp(a), math.ulp(b))
+            except Exception:
+                same = False
+            k = OFF_LATTICE if same else -6
+        obs.append(k)
+        raws.append(r)
+
+    kw = settings(c)
+    kwz = settings(c, none_as_zero=True)
+    kwz.pop("use_ndim", None)
+    if "inner_dist" not in kwz:
+        kwz["inner_dist"] = "squared euclidean"
+    a_l, b_l = series(c, "s1", "list"), series(c, "s2", "list")
+    a_n, b_n = series(c, "s1", "numpy"), series(c, "s2", "numpy")
+    if use_ndim:
+        add("py:dtw.distance", lambda: dtw.distance(a_n, b_n, **kw))
+        kwn = {k: v for k, v in kw.items() if k != "use_ndim"}
+        add("py:dtw_ndim.distance", lambda: dtw_ndim.distance(a_n, b_n, **kwn))
+        add("c:dtw_ndim.distance[use_c]", lambda: dtw_ndim.distance(a_n, b_n, use_c=True, **kwn))
+        add("c:dtw_ndim.distance_fast", lambda: dtw_ndim.distance_fast(a_n, b_n, **kwn))
+        add("c:dtw.distance_fast[use_ndim]", lambda: dtw.distance_fast(a_n, b_n, **kw))
+        add("c:dtw_cc.distance_ndim", lambda: dtw_cc.distance_ndim(a_n, b_n, **kwz))
+        if c.get("prune"):
+            add("c:dtw_ndim.distance_matrix[use_c]",
+                lambda: dtw_ndim.distance_matrix([a_n, b_n], parallel=False, compact=True, use_c=True, **kwn)[0])
+        else:
+            add("c:dtw_ndim.distance_matrix_fast",
+                lambda: dtw_ndim.distance_matrix_fast([a_n, b_n], parallel=False, compact=True, **kwn)[0])
+    else:
+        a_a, b_a = series(c, "s1", "array"), series(c, "s2", "array")
+        add("py:dtw.distance", lambda: dtw.distance(a_l, b_l, **kw))
+        add("c:dtw.distance[use_c,array]", lambda: dtw.distance(a_a, b_a, use_c=True, **kw))
+        add("c:dtw.distance_fast[numpy]", lambda: dtw.distance_fast(a_n, b_n, **kw))
+        add("c:dtw_cc.distance[0=off]", lambda: dtw_cc.distance(a_a, b_a, **kwz))
+        add("c:dtw.distance_matrix_fast",
+            lambda: dtw.distance_matrix_fast([a_n, b_n], parallel=False, compact=True, **kw)[0])
+        psi = tuple(c["psi"])
+        if len(set(psi)) == 1 and psi[0] != 0:
+            add("c:dtw.distance_fast[psi-int]", lambda: dtw.distance_fast(a_n, b_n, **settings(c, psi_int=True)))
+    add("native:dtw_distance" + ("_ndim" if use_ndim else ""), lambda: _native_dist(c))
+    return {"id": c["id"], "routes": routes, "obs": obs}
